@@ -1531,6 +1531,35 @@ def mcall(self, recv: Term, name: str, args, st: State, node=None, kwargs=None) 
 
 
 # ---------------------------------------------------------------------- iteration / comprehension
+def _bytes_of_ints(v: Term, depth: int = 0) -> Optional[List[Term]]:
+    """the bytes, one term each, of a byte string assembled from W.to_bytes(n, order) pieces with constant n (struct.pack of unsigned fields is modelled as such a
+    concatenation) and constants: byte i of W.to_bytes(n, "big") is (W >> 8 * (n - 1 - i)) & 0xFF -- valid whenever the conversion does not raise"""
+    def unsnap(t):
+        while isinstance(t, Term) and t.op == "snap":
+            t = t.args[0]
+        return t
+
+    v = unsnap(v)
+    if depth > 40:
+        return None
+    if is_const(v):
+        return [C(i) for i in cval(v)] if isinstance(cval(v), bytes) and len(cval(v)) <= 64 else None
+    if v.op == "bin" and v.args[0] == "Add":
+        a, b = _bytes_of_ints(v.args[1], depth + 1), _bytes_of_ints(v.args[2], depth + 1)
+        return a + b if a is not None and b is not None else None
+    if v.op == "call" and isinstance(v.args[0], Term) and v.args[0].op == "meth" and v.args[0].args[1] == "to_bytes" and len(v.args[1]) == 2 and not v.args[2]:
+        n_, order = unsnap(v.args[1][0]), unsnap(v.args[1][1])
+        if is_const(n_) and isinstance(cval(n_), int) and 0 < cval(n_) <= 16 and is_const(order) and cval(order) in ("big", "little"):
+            w = v.args[0].args[0]
+            n = cval(n_)
+            out = []
+            for i in range(n):
+                sh = 8 * (n - 1 - i) if cval(order) == "big" else 8 * i
+                out.append(mk("bin", "BitAnd", mk("bin", "RShift", w, C(sh)) if sh else w, C(255)))
+            return out
+    return None
+
+
 def iter_items(self, v: Term, st: State) -> Optional[List[Term]]:
     """concrete list of element terms if the iterable has statically known elements, else None"""
     if is_const(v):
@@ -1561,7 +1590,15 @@ def iter_items(self, v: Term, st: State) -> Optional[List[Term]]:
             return list(o.items)
         if o is not None and o.kind == "dict" and o.exact:
             return [k.term if isinstance(k, TK) else self.lift(k) for k in o.kv]
+        if o is not None and o.kind in ("list", "bytearray") and not o.exact and len(o.items) == 1 and isinstance(getattr(o, "base", None), Term):
+            # list(B) / bytearray(B) of a byte string whose bytes are known one by one (see below)
+            bi = _bytes_of_ints(o.base)
+            if bi is not None:
+                return bi
         return None
+    bi = _bytes_of_ints(v)
+    if bi is not None:
+        return bi
     if v.op == "iterview":
         kind, base = v.args[0], v.args[1]
         if kind == "zip":
@@ -1576,6 +1613,9 @@ def iter_items(self, v: Term, st: State) -> Optional[List[Term]]:
                 n = max(len(l) for l in lists) if lists else 0
                 return [mk("tuple", tuple(l[i] if i < len(l) else v.args[2] for l in lists)) for i in range(n)]
             return None
+        if kind == "pairwise":
+            items = self.iter_items(base, st)
+            return None if items is None else [mk("tuple", (items[i], items[i + 1])) for i in range(len(items) - 1)]
         if kind == "enumerate":
             items = self.iter_items(base, st)
             start = cval(v.args[2]) if len(v.args) > 2 and is_const(v.args[2]) else 0
